@@ -187,17 +187,26 @@ static void notePath(const char* path) {
 	++g_fault.touchedCount;
 }
 static bool writeMode(const char* mode) { return mode && (strchr(mode, 'w') || strchr(mode, 'a') || strchr(mode, '+')); }
+static bool failThisOpen() {
+	if (!g_fault.armed || g_fault.openFailCountdown == 0) return false;
+	if (--g_fault.openFailCountdown != 0) return false;
+	++g_fault.firedOpenFail;
+	errno = EMFILE;
+	return true;
+}
 
 FILE* fopen64(const char* path, const char* mode) {
 	typedef FILE* (*fn)(const char*, const char*);
 	static fn f = real<fn>("fopen64");
 	if (writeMode(mode)) notePath(path);
+	else if (failThisOpen()) return nullptr;
 	return f(path, mode);
 }
 FILE* fopen(const char* path, const char* mode) {
 	typedef FILE* (*fn)(const char*, const char*);
 	static fn f = real<fn>("fopen");
 	if (writeMode(mode)) notePath(path);
+	else if (failThisOpen()) return nullptr;
 	return f(path, mode);
 }
 int open64(const char* path, int flags, ...) {
@@ -206,6 +215,7 @@ int open64(const char* path, int flags, ...) {
 	mode_t mode = 0;
 	if (flags & (O_CREAT | O_TMPFILE)) { va_list ap; va_start(ap, flags); mode = static_cast<mode_t>(va_arg(ap, int)); va_end(ap); }
 	if ((flags & (O_WRONLY | O_RDWR | O_CREAT | O_TRUNC)) != 0) notePath(path);
+	else if (failThisOpen()) return -1;
 	return f(path, flags, mode);
 }
 int open(const char* path, int flags, ...) {
@@ -214,6 +224,7 @@ int open(const char* path, int flags, ...) {
 	mode_t mode = 0;
 	if (flags & (O_CREAT | O_TMPFILE)) { va_list ap; va_start(ap, flags); mode = static_cast<mode_t>(va_arg(ap, int)); va_end(ap); }
 	if ((flags & (O_WRONLY | O_RDWR | O_CREAT | O_TRUNC)) != 0) notePath(path);
+	else if (failThisOpen()) return -1;
 	return f(path, flags, mode);
 }
 int rename(const char* from, const char* to) {
